@@ -174,25 +174,29 @@ def findWorker (c : Cfg) (s : State) : Nat → Nat → Option Nat × Nat
     then (some cyc, (cyc + 1) % c.W)
     else findWorker c s n ((cyc + 1) % c.W)
 
+/-- The tail of `_try_put_index` once worker `w` has been chosen (`cyc` = new cycle position). -/
+def dispatchTo (c : Cfg) (s : State) (w cyc : Nat) : State :=
+  let sp := s.samplerPos + 1
+  let fl := flags c sp s.numYielded
+  { s with
+    samplerPos := sp
+    cyc := cyc
+    mainSnaps := if fl.1 then s.mainSnaps ++ [(s.sendIdx, sp)] else s.mainSnaps
+    bad := s.bad || decide (c.P * c.W ≤ s.outstanding) || (fl.1 && !fl.2)
+    workers := pushMsg s.workers w (.task s.sendIdx (sp - 1) fl.2)
+    info := s.info ++ [⟨s.sendIdx, w, none⟩]
+    numTasks := s.numTasks.modify w (· + 1)
+    outstanding := s.outstanding + 1
+    sendIdx := s.sendIdx + 1 }
+
 def tryPut (c : Cfg) (s : State) : State :=
-  let s := if s.outstanding < c.P * c.W then s else { s with bad := true }
-  if !c.iterable && decide (c.batches.length ≤ s.samplerPos) then s   -- sampler exhausted: StopIteration
+  if !c.iterable && decide (c.batches.length ≤ s.samplerPos) then     -- sampler exhausted: StopIteration
+    { s with bad := s.bad || decide (c.P * c.W ≤ s.outstanding) }
   else
-    let sp := s.samplerPos + 1
-    let fl := flags c sp s.numYielded
     match findWorker c s c.W s.cyc with
-    | (none, cyc) => { s with samplerPos := sp, cyc := cyc }          -- the drawn index is dropped
-    | (some w, cyc) =>
-      { s with
-        samplerPos := sp
-        cyc := cyc
-        mainSnaps := if fl.1 then s.mainSnaps ++ [(s.sendIdx, sp)] else s.mainSnaps
-        bad := s.bad || (fl.1 && !fl.2)
-        workers := pushMsg s.workers w (.task s.sendIdx (sp - 1) fl.2)
-        info := s.info ++ [⟨s.sendIdx, w, none⟩]
-        numTasks := s.numTasks.modify w (· + 1)
-        outstanding := s.outstanding + 1
-        sendIdx := s.sendIdx + 1 }
+    | (none, cyc) =>                                                  -- the drawn index is dropped
+      { s with samplerPos := s.samplerPos + 1, cyc := cyc, bad := s.bad || decide (c.P * c.W ≤ s.outstanding) }
+    | (some w, cyc) => dispatchTo c s w cyc
 
 def prime (c : Cfg) : Nat → State → State
   | 0, s => s
@@ -219,19 +223,21 @@ def applyDelta (ws : List WSt) (w : Nat) : Option WSt → List WSt
   | none => ws
   | some st => ws.set w st
 
-/-- `_process_data` followed by `__next__`'s `_num_yielded += 1`; the observation is what `next()`
-returns or raises. -/
+/-- The part of `_process_data` after the re-raise of an error, followed by `__next__`'s
+`_num_yielded += 1`. -/
+def yieldItem (c : Cfg) (s : State) (r : Res) (b : Nat) : State × Obs :=
+  let s := { s with lastW := r.w, wsnaps := applyDelta s.wsnaps r.w r.st }
+  if c.interval ≠ 0 ∧ (s.numYielded + 1) % c.interval = 0 then
+    match takeSnapshot c s with
+    | some s' => ({ s' with numYielded := s'.numYielded + 1 }, .item b)
+    | none => ({ s with mainSnaps := (popSnaps s.rcvdIdx s.mainSnaps none).2 }, .assertion)
+  else ({ s with numYielded := s.numYielded + 1 }, .item b)
+
+/-- `_process_data`; the observation is what `next()` returns or raises. -/
 def processData (c : Cfg) (s : State) (r : Res) : State × Obs :=
-  let s := { s with numTasks := s.numTasks.modify r.w (· - 1) }
-  let s := tryPut c s
+  let s := tryPut c { s with numTasks := s.numTasks.modify r.w (· - 1) }
   match r.kind with
-  | .data b =>
-    let s := { s with lastW := r.w, wsnaps := applyDelta s.wsnaps r.w r.st }
-    if c.interval ≠ 0 ∧ (s.numYielded + 1) % c.interval = 0 then
-      match takeSnapshot c s with
-      | some s' => ({ s' with numYielded := s'.numYielded + 1 }, .item b)
-      | none => ({ s with mainSnaps := (popSnaps s.rcvdIdx s.mainSnaps none).2 }, .assertion)
-    else ({ s with numYielded := s.numYielded + 1 }, .item b)
+  | .data b => yieldItem c s r b
   | _ => (s, .error)
 
 /-! ## `_next_data` -/
@@ -295,16 +301,17 @@ def finish (p : State × Option Obs) : State :=
   | some o => { p.1 with phase := .idle, obs := p.1.obs ++ [o] }
   | none => { p.1 with phase := .waiting }
 
+/-- The status part of an arrival: an end-of-shard notice retires its worker and triggers one dispatch. -/
+def onArrival (c : Cfg) (s : State) (r : Res) : State :=
+  if c.iterable && decide (r.kind = .notice) then
+    let s := if c.persistent then { s with status := s.status.set r.w false }
+             else markUnavailable c s r.w false
+    tryPut c { s with bad := s.bad || r.st.isNone }
+  else s
+
 /-- What `_next_data` does with one result taken from the queue, then on to the next blocking point. -/
 def recvData (c : Cfg) (s : State) (r : Res) : State :=
-  let s := { s with outstanding := s.outstanding - 1 }
-  let s :=
-    if c.iterable && decide (r.kind = .notice) then
-      let s := if c.persistent then { s with status := s.status.set r.w false }
-               else markUnavailable c s r.w false
-      let s := { s with bad := s.bad || r.st.isNone }
-      tryPut c s
-    else s
+  let s := onArrival c { s with outstanding := s.outstanding - 1 } r
   if r.idx ≠ s.rcvdIdx then
     if !c.inOrder then
       if r.kind = .notice then
